@@ -46,7 +46,7 @@ struct ccase {
 };
 
 /* ---- terminal tracker ---- */
-struct ttrk { int kind; int err; long ops_after; bool pending_local; };   /* kind: 0 none, 1 closed, 2 failed */
+struct ttrk { bool rx_end;   /* xcm_receive has returned 0 */  int kind; int err; long ops_after; bool pending_local; };   /* kind: 0 none, 1 closed, 2 failed */
 
 static void tv(const struct ccase *c, struct vep *e, const char *rule, const char *fmt, ...)
 {
@@ -63,7 +63,7 @@ static void trk(const struct ccase *c, struct vep *e, struct ttrk *t, enum op op
     bool success = op == OP_RECV ? rc > 0 : rc >= 0;
     bool again = rc < 0 && se == EAGAIN;
     if (t->kind == 0) {
-        if (op == OP_RECV && rc == 0) { t->kind = 1; }
+        if (op == OP_RECV && rc == 0) { t->kind = 1; t->rx_end = true; }
         else if (rc < 0 && !again) {
             if (se == EPIPE) t->kind = 1;        /* the peer's close, noticed while writing */
             else { t->kind = 2; t->err = se; }
@@ -71,6 +71,8 @@ static void trk(const struct ccase *c, struct vep *e, struct ttrk *t, enum op op
         return;
     }
     t->ops_after++;
+    /* the close was noticed while writing: what the peer sent before it closed has arrived and is still owed, until xcm_receive says 0 */
+    if (t->kind == 1 && !t->rx_end && op == OP_RECV) { if (rc == 0) t->rx_end = true; if (rc >= 0) return; }
     /* xcm_finish == 0 says "nothing outstanding"; the property demands an errno from it only after a failure on the TCP-based transports */
     if (success && op == OP_FINISH && !(t->kind == 2 && tcp_based(e))) return;
     if (success) { tv(c, e, "success-after-terminal", "%s returned %d after the socket had reported %s", op_name[op], rc, t->kind == 1 ? "the peer's close" : strerror(t->err)); return; }
@@ -326,7 +328,7 @@ static void run_fault(struct ccase *c, long idx, vrng *r)
         char tup[160]; snprintf(tup, sizeof tup, "fault|%s|%s|%d|%s", vtp_name[c->tp], vs_call_name[c->fcall], c->ferrno, op_name[disc_op]); vsig_str(tup);
         /* the discovering call reports that errno.  EPIPE met while writing is the peer's close: receive reports 0 then */
         bool ok = disc_rc < 0 && disc_errno == c->ferrno;
-        if (c->ferrno == EPIPE && c->fcall == VS_SEND && ((disc_op == OP_RECV && disc_rc == 0) || (disc_rc < 0 && disc_errno == EPIPE))) ok = true;
+        if (c->ferrno == EPIPE && c->fcall == VS_SEND && ((disc_op == OP_RECV && disc_rc >= 0) || (disc_rc < 0 && disc_errno == EPIPE))) ok = true;     /* a receive may still deliver what arrived before the close */
         if (!ok) tv(c, &A, "discoverer-misreports", "%s met the injected %s on %s #%d but returned %d errno %d (%s)", op_name[disc_op], strerror(c->ferrno), vs_call_name[c->fcall], c->fn, disc_rc, disc_errno, strerror(disc_errno));
         else observe(c, &A, &t, &B, r, c->first_obs, 12, NULL, NULL, true);
         if (t.kind == 2 && t.err != c->ferrno && !vviol_count()) tv(c, &A, "wrong-terminal-errno", "terminal errno is %d, injected was %d", t.err, c->ferrno);
@@ -417,6 +419,32 @@ static void run_orderly(struct ccase *c, long idx, vrng *r)
     long sent_ok = cl->n_ok; uint64_t bytes_ok = cl->bytes_ok;
     vx_close(cl);
     struct ttrk t = { 0 };
+    if (vrnd_p(r, 30) || getenv("VERIF_C06_SENDFIRST")) {
+        /* the observer is itself sending when the peer closes: one of its sends is the first call to see the close.  What the peer had sent
+         * before closing has arrived all the same and is owed before the terminal condition, whichever call noticed it first */
+        bool saw = false;
+        for (int i = 0; i < 300 && !saw; i++) {
+            int rc = do_op(c, ob, &t, OP_SEND, cl, r); if (rc < 0 && errno != EAGAIN) saw = true;
+            if (!saw) { if (vx_finish(ob) < 0 && errno != EAGAIN) saw = true; }
+            if (!saw && i > 20) { struct pollfd none; vs_real_poll(&none, 0, 1); }
+        }
+        if (vviol_count()) goto out;
+        vobs(saw ? "orderly_close_first_seen_by_a_send" : "orderly_close_not_seen_by_sends", 1);
+        struct ttrk t2 = { 0 };
+        for (int i = 0; i < 4000 && t2.kind == 0; i++) { int rc = do_op(c, ob, &t2, OP_RECV, cl, r); if (rc < 0 && errno == EAGAIN) { struct pollfd none; vs_real_poll(&none, 0, 1); } if (vviol_count()) goto out; }
+        bool short_of = ob->bytestream ? ob->rx_stream_len < bytes_ok : ob->n_rx < sent_ok;
+        /* a send that was still in flight when the peer closed makes the peer's kernel reset the connection: then the end is a reset
+         * (an error on every call), and what had arrived may be gone with it - TCP's doing, the other clause of the property */
+        if (short_of && t2.kind == 2) { vobs("close_raced_into_reset", 1); short_of = false; goto sf_done; }
+        if (short_of) {
+            char k2[64]; snprintf(k2, sizeof k2, "%s", t2.kind == 1 ? "as-close" : t2.kind == 2 ? "as-error" : "nothing-reported");
+            tv(c, ob, "arrived-data-dropped-after-send-saw-close", "the peer sent %ld messages / %" PRIu64 " bytes, flushed and closed; the observer, itself sending, had a send fail first (%s); its receives then returned %ld messages / %zu bytes before reporting %s (errno %d)", sent_ok, bytes_ok, saw ? "yes" : "no", ob->n_rx, ob->rx_stream_len, k2, t2.err);
+        } else { vobs("orderly_closes_verified_send_first", 1); veng_check_delivery(idx, cl, ob, false, ctx); }
+    sf_done:
+        vobs("terminal_probe_calls", t2.ops_after);
+        { char tup[100]; snprintf(tup, sizeof tup, "orderly-send-first|%s|%d", vtp_name[c->tp], b_is_closer); vsig_str(tup); }
+        goto out;
+    }
     observe(c, ob, &t, cl, r, OP_RECV, 12, NULL, NULL, false);
     if (!vviol_count()) {
         if (t.kind != 1) tv(c, ob, "orderly-close-not-zero", "the peer flushed and closed, nothing was outstanding locally, but the close was reported as kind %d errno %d", t.kind, t.err);
